@@ -223,4 +223,49 @@ theorem placeItems_perm {ι : Type} {a₁ a₂ : List (Arrival ι)} (hp : a₁.P
     · intro h; exact absurd h.symm hij
     · intro h; exact absurd h hij) hp hidx _
 
+/-! ### goroutine per ticket, result picked by an in-order scan -/
+
+theorem findSome?_congr' {α β : Type} {f g : α → Option β} : ∀ (l : List α), (∀ x ∈ l, f x = g x) → l.findSome? f = l.findSome? g
+  | [], _ => rfl
+  | x :: r, h => by
+    simp only [List.findSome?_cons]
+    rw [h x List.mem_cons_self, findSome?_congr' r (fun y hy => h y (List.mem_cons_of_mem _ hy))]
+
+theorem runWorkers_apply (check : Nat → Option ε) (π : List Nat) (i : Nat) :
+    runWorkers check π i = if i ∈ π ∧ (check i).isSome then check i else none := by
+  unfold runWorkers
+  have h : ∀ (π : List Nat) (m : GMap Nat ε),
+      (π.foldl (workerStep check) m) i =
+        if i ∈ π ∧ (check i).isSome then check i else m i := by
+    intro π
+    induction π with
+    | nil => intro m; simp
+    | cons j r ih =>
+      intro m
+      simp only [List.foldl_cons, List.mem_cons]
+      rw [ih]
+      by_cases hr : i ∈ r ∧ (check i).isSome
+      · simp [hr]
+      · simp only [hr, if_false]
+        by_cases hij : i = j
+        · subst hij
+          cases hc : check i with
+          | none => simp [workerStep, hc]
+          | some e => simp [workerStep, hc, GMap.set]
+        · have : ¬ ((i = j ∨ i ∈ r) ∧ (check i).isSome = true) := by
+            intro h'; exact hr ⟨h'.1.resolve_left hij, h'.2⟩
+          simp only [this, if_false]
+          cases hj : check j with
+          | none => simp [workerStep, hj]
+          | some e => simp [workerStep, hj, GMap.set, hij]
+  exact h π _
+
+/-- the `errors` slice — hence everything computed from it — does not depend on the order in which the workers complete -/
+theorem runWorkers_perm (check : Nat → Option ε) {π₁ π₂ : List Nat} (hp : π₁.Perm π₂) :
+    runWorkers check π₁ = runWorkers check π₂ := by
+  funext i
+  rw [runWorkers_apply, runWorkers_apply]
+  have : (i ∈ π₁) = (i ∈ π₂) := propext hp.mem_iff
+  simp only [this]
+
 end ZChain.Det
